@@ -147,7 +147,8 @@ theorem inv_set {w : WM} {iss : List Handle} (hi : Inv ⟨w, iss⟩) (p : Pool) 
     bufEmpty := hi.bufEmpty
     bufKnown := fun b hb cmd hc => ⟨(hi.bufKnown b hb cmd hc).1, cmdOk_ext he (hi.bufKnown b hb cmd hc).2⟩
     markedKnown := hi.markedKnown
-    markedRange := hi.markedRange }
+    markedRange := hi.markedRange
+    markedSorted := hi.markedSorted }
 
 theorem rel_set {w : WM} {iss : List Handle} {s : WS} (hsh : SharedPooled w)
     (hcmd : ∀ b ∈ w.buffers, ∀ cmd ∈ b, cmdOk w.pool cmd) (hr : Rel ⟨w, iss⟩ s) (p : Pool) (n : Nat)
@@ -171,7 +172,8 @@ theorem rel_set {w : WM} {iss : List Handle} {s : WS} (hsh : SharedPooled w)
       intro cmd hc sc hcs
       exact cmdRel_ext he (hcmd b hb' cmd hc) hcs
     marked := hr.marked
-    markedLt := hr.markedLt }
+    markedLt := hr.markedLt
+    markedNodup := hr.markedNodup }
 
 /-- the frame move: `Inv` -/
 theorem inv_frame {c : CW} {w' : WM} (hi : Inv c) (hf : FrameEq c.w w') (he : PoolExt c.w.pool w'.pool)
@@ -260,7 +262,8 @@ theorem inv_push {c : CW} (hi : Inv c) (t : Nat) (cmd : Cmd) (hcr : crH cmd = no
     live := liveInv_of_same hi.live (fun _ => rfl) (fun _ => rfl),
     pool := ⟨hi.pool.vals_nodup, hi.pool.insts_nodup, hi.pool.inst_lt, hi.pool.inst_sid⟩,
     shared := hi.shared, closed := hi.closed, depsB := hi.depsB, locsCover := hi.locsCover,
-    bufLe := ?_, bufLen := ?_, bufEmpty := ?_, bufKnown := ?_, markedKnown := ?_, markedRange := hi.markedRange }
+    bufLe := ?_, bufLen := ?_, bufEmpty := ?_, bufKnown := ?_, markedKnown := ?_, markedRange := hi.markedRange,
+    markedSorted := hi.markedSorted }
   · rcases hi.tinv with ⟨g, tinv, hiss, hpend⟩
     exact ⟨g, tinv, hiss, fun h => (hpend h).trans (hch h).symm⟩
   · show (createHandles (c.w.buffers.set t (c.w.buffers.getD t [] ++ [cmd]))).Nodup
@@ -292,6 +295,7 @@ theorem rel_push {c : CW} {s : WS} (hr : Rel c s) (t : Nat) (cmd : Cmd) (sc : SC
     nthreads := hr.nthreads
     buffers := hr.buffers.set t ((hr.buffers.getD t [] [] .nil).append (.cons hrel .nil))
     marked := hr.marked
-    markedLt := hr.markedLt }
+    markedLt := hr.markedLt
+    markedNodup := hr.markedNodup }
 
 end Mustache.Proofs.Refine
